@@ -327,7 +327,7 @@ func (a *adversary) injectWire(in Inject) {
 	if f.r.p(0.05) && len(buf) > 0 {
 		buf = buf[:f.r.intn(len(buf))] // truncated on the wire: the RPC layer would reject what does not parse
 	}
-	w.logf("INJECT n%d->n%d %s garbage=%v len=%d", in.From, in.To, in.Kind, garbage, len(buf))
+	w.logf("INJECT n%d->n%d %s garbage=%v", in.From, in.To, in.Kind, garbage)
 	if in.Kind == "fetch" {
 		pb := &hotstuffpb.BlockHash{}
 		if proto.Unmarshal(buf, pb) != nil {
